@@ -77,6 +77,7 @@ func (w *WatcherHub) DeleteWatcher(sub chan []*proto.Event, lock bool) {
 // Stream push events to watchers.
 func (w *WatcherHub) Stream(input chan []*proto.Event) {
 	for item := range input {
+		var slowSubs []chan []*proto.Event
 		w.RLock()
 		for sub := range w.subs {
 			select {
@@ -85,10 +86,15 @@ func (w *WatcherHub) Stream(input chan []*proto.Event) {
 				// drop slow consumer
 				klog.InfoS("drop slow consumer", "chan", sub, "bufSize", watchBuffer)
 				w.metricCli.EmitCounter("drop.slow.watcher", 1)
-				go w.DeleteWatcher(sub, true)
+				slowSubs = append(slowSubs, sub)
 			}
 		}
 		w.RUnlock()
+		// remove slow consumers before the next item is broadcast,
+		// otherwise a consumer that missed this item may receive later ones
+		for _, sub := range slowSubs {
+			w.DeleteWatcher(sub, true)
+		}
 	}
 
 	w.Lock()
